@@ -42,7 +42,9 @@ CDEF = ("struct c19_t3 { char a[3]; };"             # size 3
         "struct c19_vi { char c; int d[]; };")      # offsetof(d) 4, item 4, sizeof 4
 SIZES = {'char': 1, 'unsigned char': 1, 'signed char': 1, '_Bool': 1, 'short': 2, 'unsigned short': 2,
          'int': 4, 'float': 4, 'double': 8, 'long long': 8, 'struct c19_s': 8,
-         'struct c19_t3': 3, 'struct c19_t12': 12}
+         'struct c19_t3': 3, 'struct c19_t12': 12,
+         # character item types wider than one byte (a 'char' item is one byte, these are not)
+         'wchar_t': 4, 'char16_t': 2, 'char32_t': 4}
 TYPES = sorted(SIZES)
 CDATA_KINDS = {'cdata': ('char[]', 1), 'cdata_uchar_fixed': (None, 1), 'cdata_short': ('short[]', 2),
                'cdata_int': ('int[]', 4), 'cdata_ll': ('long long[]', 8),
